@@ -493,6 +493,20 @@ def fmt_view(e: ast.expr):
     import string as _string
     if isinstance(e, ast.Constant) and isinstance(e.value, str):
         return [('lit', e.value)]
+    if isinstance(e, ast.BinOp) and isinstance(e.op, ast.Add):
+        # string concatenation: the operands side by side (a non-literal operand is a field without a format spec)
+        parts = []
+        for side in (e.left, e.right):
+            v = fmt_view(side)
+            parts += v if v is not None else [('field', side, '')]
+        # merge adjacent literals
+        out = []
+        for p_ in parts:
+            if out and p_[0] == 'lit' and out[-1][0] == 'lit':
+                out[-1] = ('lit', out[-1][1] + p_[1])
+            else:
+                out.append(p_)
+        return out
     if isinstance(e, ast.JoinedStr):
         out = []
         for v in e.values:
